@@ -706,7 +706,7 @@ func corr(o Opts) {
 	g.ow = NewCaseWriter(o.Out, "ocases", oheader, "omism", 30)
 	g.ow.Type = "ocase"
 	g.ow.Rule = "an option-matrix case is non-trivial iff the pool has >= 2 threads and the step has >= 2 jobs"
-	g.sw = NewCaseWriter(o.Out, "sagacases", oheader, "sagamism", 200)
+	g.sw = NewCaseWriter(o.Out, "sagacases", oheader, "sagamism", 100)
 	g.sw.Type = "sagacase"
 	g.sw.Rule = "a SAGA case is non-trivial iff the pool has >= 2 threads"
 	g.ew = NewCaseWriter(o.Out, "ecases", eheader, "emism", 60)
